@@ -156,6 +156,11 @@ def conformance(h, ex, seed, k):
     return res
 
 
+def _slug(s):
+    import re
+    return re.sub(r"[^A-Za-z0-9._-]+", "_", s)
+
+
 def load_known():
     p = os.path.join(ROOT, "known_findings.json")
     if not os.path.exists(p):
@@ -228,7 +233,7 @@ def finish(prop, tier, seed, obs, results, bres, wall):
             else:
                 status = "refuted"
                 for v in bad:
-                    rp = os.path.join("out", "replays", prop, f"{oid}__{label}__{v['name']}__p{v['path']}.json".replace("/", "_").replace(" ", "_"))
+                    rp = os.path.join("out", "replays", prop, _slug(f"{oid}__{label}__{v['name'][:48]}__p{v['path']}") + ".json")
                     json.dump(dict(property=prop, obligation=oid, instance=label, title=ob.title, vc=v["name"],
                                    units=r.get("units"), solver=dict(result="sat", backend=v["backend"], seconds=v["seconds"]),
                                    model=v.get("model"), native=v.get("native"), reproduced=v.get("reproduced"),
